@@ -55,12 +55,14 @@ precedence = (
     # note that we do not need to include all tokens here, as there is no confusion about
     # LBRACKET or something; APPROX is also not necessary, as this token can only occur
     # after a TERM or PHRASE, and there is no confusion about operator precedence
+    # PLUS, MINUS and TO start a new operand: they must not bind tighter than the binary
+    # operations, or "a AND b -c" would shift on MINUS and give AND(a, (b -c))
+    ('nonassoc', 'TO'),
+    ('nonassoc', 'PLUS', 'MINUS'),
     ('left', 'IMPLICIT_OP'),
     ('left', 'OR_OP'),
     ('left', 'AND_OP'),
-    ('nonassoc', 'PLUS', 'MINUS'),
     ('nonassoc', 'BOOST'),
-    ('nonassoc', 'TO'),
     ('right', 'UMINUS')
 )
 
